@@ -29,7 +29,31 @@ PRIMS["rwlock"] = {
     "thorough": {"depth": 8, "random_count": 60000, "random_len": 60},
 }
 
+PRIMS["once"] = {
+    "new_lines": ["new once"],
+    "quick": {"depth": 6, "random_count": 3000, "random_len": 40},
+    "thorough": {"depth": 8, "random_count": 60000, "random_len": 50},
+}
+
 PROPS = {
+    "C04": {
+        "modules": ["ALock.Props.C04"],
+        "prims": ["once"],
+        "fields": ["out", "words", "val", "drops"],
+        "monitors": ["C04"],
+        "assumptions": ["initialiser futures are scripted (ok / err / panic / pending / cancelled at any await point); blocking forms are not in the model",
+                        "publication order of ptr::write and store(2, Release) is not in this model (memory-ordering table)"],
+        "partial": ["'dropped exactly once' is monitored on the implementation (per-instance drop log) and compared as a drop count; the serial-uniqueness theorem is pending",
+                    "thread interleavings; blocking forms"],
+    },
+    "C08": {
+        "modules": ["ALock.Props.C08"],
+        "prims": ["once"],
+        "fields": ["out", "w", "words", "ev", "val"],
+        "monitors": ["C08"],
+        "assumptions": ["polls are atomic; initialiser futures are scripted; blocking forms are not in the model"],
+        "partial": ["thread interleavings; threads parked in blocking forms"],
+    },
     "C02": {
         "modules": ["ALock.Props.C02"],
         "prims": ["rwlock"],
